@@ -564,7 +564,7 @@ def spec_expect(recipe):
     return exp
 
 
-ODD_ROOT_NAMES = ["proj", "proj", "pr[v2]", "p*x", "q?y", "sp ace", "ünï", "a[b", "x]y[", "{z}", "dot.d", "da-sh"]
+ODD_ROOT_NAMES = ["proj", "proj", "pr[v2]", "p*x", "q?y", "sp ace", "ünï", "a[b", "x]y[", "{z}", "dot.d", "da-sh", "subprojects", ".hidden"]
 
 
 def odd_root(scratch, tag, k):
